@@ -523,7 +523,7 @@ def c14(ctx):
     """C14 hot backup: histories with readers of every age; Tx.WriteTo into a writer that commits further write transactions on the same DB between the chunks of the copy
     (0, 1, 2 or 5 of them), and Tx.CopyFile; checked: bytes written = Tx.Size() = mark * pageSize, both metas valid with txids T and T-1, the copy opens, its dump = the Spec.v snapshot of the
     reader, decoder content/order/bounds/accounting, Tx.Check of the copy."""
-    return _hist(ctx, "c14", "none", HIST_RULE + "; plus hot backups through open readers with interleaved commits; non-trivial needs at least one backup", 240, 4000,
+    return _hist(ctx, "c14", "none+io", HIST_RULE + "; plus hot backups through open readers with interleaved commits and failing commits (first or second write fails: physical rollback) between a reader's begin and its copy; non-trivial needs at least one backup", 240, 4000,
                  as_propfail=True, extra_args=("-backups",))
 
 
